@@ -159,7 +159,12 @@ def gen_c07(rng, tier):
             theta.append(gen_theta_profile(rng, n, blo, bhi))  # inside the span
         else:
             theta.append(gen_theta_profile(rng, n, max(0.0, blo - 1.0), bhi + 1.0))
-    spec = {"prop": "C07", "n": n, "cols": cols, "bins": bins, "theta": theta,
+    td_int = rng.random() < 0.1
+    if td_int:
+        # integer-typed target_data (e.g. an index-like or undecoded coordinate): whole-number
+        # profiles against bin edges that are not whole numbers
+        theta = [[float(round(t)) for t in col] for col in theta]
+    spec = {"prop": "C07", "n": n, "cols": cols, "bins": bins, "theta": theta, "td_int": td_int,
             "phi_seed": rng.randrange(10**6), "poison": [rng.choice(POISON_KINDS), rng.randrange(10**6)]}
     if rng.random() < 0.4:
         spec["level"] = "kernel"
@@ -180,6 +185,7 @@ def gen_c07(rng, tier):
         spec["boundary"] = rng.choice(["fill", "extend"])
         spec["td_name"] = rng.choice([None, "theta"])
         spec["float32"] = rng.random() < 0.1
+        spec["int_data"] = (not spec["float32"]) and rng.random() < 0.1
         if rng.random() < 0.1:
             # target_data=None: xgcm uses the axis' own outer coordinate (a 1-D profile)
             spec["td_none"] = True
@@ -266,6 +272,8 @@ def gen_c08(rng, tier):
         spec["schedules"] = gen_schedules(rng, tier, n=3 if tier == "quick" else 6)
         spec["z_pos"] = rng.choice(["center", "center", "outer"])
         spec["float32"] = rng.random() < 0.1
+        # integer-typed data (counts, undecoded model output): the interpolant is still real-valued
+        spec["int_data"] = (not spec["float32"]) and rng.random() < 0.12
     return spec
 
 
@@ -335,6 +343,8 @@ def run_c07(spec, cnt):
         cnt.c["kernel_cases"] += 1
         eye = np.eye(n).reshape((n,) + (1,) * len(cols) + (n,))
         theta_arg = theta[(0,) * len(cols)] if spec.get("shared_theta") else theta
+        if spec.get("td_int"):
+            theta_arg = theta_arg.astype("int64")
         Wnd = T.interp_1d_conservative(np.broadcast_to(eye, (n,) + tuple(cols) + (n,)).copy(), theta_arg, bins)
         out = T.interp_1d_conservative(phi, theta_arg, bins)
         if Wnd.shape != (n,) + tuple(cols) + (m,) or out.shape != tuple(cols) + (m,):
@@ -463,6 +473,10 @@ def run_grid(spec, cnt, prop, feat):
     if f32:
         da = da.astype("float32")
         td = td.astype("float32")
+    if spec.get("int_data"):
+        da = da.astype("int64")
+    if spec.get("td_int") and not f32:
+        td = td.astype("int64")
     da = da.assign_coords({d: ds[d] for d in da.dims if d in ds.coords})
     kw = {"target_data": td}
     if prop == "C07":
